@@ -55,7 +55,7 @@ CLASSES = ["h1", "h1", "h1", "h2", "h2", "h3", "polar", "radial", "azimuthal", "
            "cylindrical", "cylindrical_surface", "collection"]
 PATHS = ["a.json", "b.json"]
 META = [{}, {"run": 7}, {"tag": "x", "params": [1, 2.5, "a"]}, {"nested": {"a": 1, "b": [True, None]}},
-        {"unit": "GeV", "scale": 0.25}]
+        {"unit": "GeV", "scale": 0.25}, {"label": "p\u2090 [\u00b5m] \u2013 \u00dcn\u00efc\u00f6de", "quote": "a \"b\" \\ c"}]
 
 
 # ----------------------------------------------------------------------------
@@ -64,7 +64,7 @@ META = [{}, {"run": 7}, {"tag": "x", "params": [1, 2.5, "a"]}, {"nested": {"a": 
 def generate(rng, seed, part):
     klass = rng.choice(CLASSES)
     cfg = {"class": klass, "faults": rng.random() < 0.6, "meta": rng.choice(META),
-           "name": rng.choice([None, "hist", "my histogram"]), "title": rng.choice([None, None, "Title"]),
+           "name": rng.choice([None, "hist", "my histogram", "\u00e9chantillon \u03b1"]), "title": rng.choice([None, None, "Title"]),
            "keep_missed": rng.random() < 0.8}
     n = rng.choice([0, 1, 3, 6, 12, 20])
     if klass in ("h1", "h2", "h3", "collection"):
